@@ -24,6 +24,8 @@ def concretize(tc, idx, probe=False):
     for j, (r, p) in enumerate(zip(tc["reqs"], tc["progs"])):
         i = j + 1
         kw = {"m": r["m"], "ver": r["ver"], "conn": r["conn"]}
+        if r.get("expect"):
+            kw["expect"] = True
         body = r["body"]
         if tc.get("upg", 0) == i:
             # the last request asks for an upgrade and an upgrade service is configured
